@@ -54,9 +54,9 @@ def gen_one(rng):
     ops = []
     k = [0]
 
-    def mut(n):
+    def mut(n, kinds=None):
         k[0] += 1
-        return {"k": "mut", "n": n, "m": rng.randrange(7), "i": k[0]}
+        return {"k": "mut", "n": n, "m": rng.choice(kinds) if kinds else rng.randrange(7), "i": k[0]}
 
     if rng.random() < 0.10:
         # the two-spellings pattern
@@ -65,26 +65,30 @@ def gen_one(rng):
                 {"k": "undrop", "n": rng.choice([a, b])}, {"k": "undrop", "n": rng.choice([a, b])}]
         return {"ops": ops}
     y = rng.random()
-    if y < 0.17:
+    if y < 0.24:
         # two generations of one exact name, then both restored (either order)
         x = _name(rng, rng.choice([1, 2]))
-        ops += [{"k": "create", "n": x}, mut(x), {"k": "drop", "n": x}, {"k": "create", "n": x}, mut(x), {"k": "drop", "n": x}]
+        ops += [{"k": "create", "n": x}, mut(x, [4, 5, 6]), {"k": "drop", "n": x}, {"k": "create", "n": x}, mut(x, [2, 3, 6]), {"k": "drop", "n": x}]
         tail = [{"k": "undrop", "n": _name(rng, BASES.index(x.lower()), 0.5)}, {"k": "undropx", "n": x.lower()}]
         rng.shuffle(tail)
         ops += tail
         n = rng.randint(0, 2)
-    elif y < 0.34:
+    elif y < 0.42:
         # the root database
-        ops += [mut("test"), {"k": "drop", "n": _name(rng, 0)}]
+        ops += [mut("test", [2, 3, 4, 5, 6]), {"k": "drop", "n": _name(rng, 0)}]
         if rng.random() < 0.4:
             ops += [{"k": "create", "n": _name(rng, 0, 0.8)}, {"k": "undrop", "n": "test"}, {"k": "drop", "n": "test"}]
+        elif rng.random() < 0.6:
+            ops += [{"k": "create", "n": "db2"}, mut("db2")]            # other databases in between
         ops.append({"k": "undrop", "n": _name(rng, 0, 0.5)})
-        n = rng.randint(1, 4)
+        n = rng.randint(1, 3)
     else:
         first = _name(rng, 1)
         ops.append({"k": "create", "n": first})
         for _ in range(rng.randint(1, 3)):
             ops.append(mut(first))
+        if rng.random() < 0.35:
+            ops.append({"k": "create", "n": _name(rng, 1, 0.3)})      # refused: the name is taken (any spelling)
         n = rng.randint(5, 9) - len(ops)
     n += len(ops)
     while len(ops) < n:
@@ -98,7 +102,7 @@ def gen_one(rng):
             ops.append({"k": "drop", "n": _name(rng, cls, 0.7)})
             if rng.random() < 0.35:
                 ops.append({"k": "create", "n": _name(rng, cls if cls else 0, 0.8)})
-        elif x < 0.85:
+        elif x < 0.88:
             ops.append({"k": "undrop", "n": _name(rng, cls, 0.5)})
         elif x < 0.91:
             ops.append({"k": "undropx", "n": spellings(BASES[cls])[2]})
@@ -109,9 +113,15 @@ def gen_one(rng):
     return {"ops": ops}
 
 
+# the witness of undrop_restores_refuted (coq/theories/C47/Proofs.v), replayed on the implementation on every run
+WITNESS = {"ops": [{"k": "create", "n": "Db1"}, {"k": "mut", "n": "Db1", "m": 0, "i": 1}, {"k": "drop", "n": "db1"},
+                   {"k": "create", "n": "db1"}, {"k": "mut", "n": "db1", "m": 2, "i": 2}, {"k": "drop", "n": "db1"},
+                   {"k": "undrop", "n": "db1"}, {"k": "undrop", "n": "db1"}]}
+
+
 def gen_cases(rng, tier):
-    n = 36 if tier == "quick" else 800
-    return [gen_one(rng) for _ in range(n)]
+    n = 24 if tier == "quick" else 800
+    return [WITNESS] + [gen_one(rng) for _ in range(n)]
 
 
 # ---- names ----
@@ -286,15 +296,16 @@ def match_known(finding, case, out):
             hit = [n for n in plive if n.lower() == low]
             if len(hit) != 1:
                 return False
-            e = hit[0]
+            fresh = [d for d in st["dropped"] if d not in prev["dropped"] and d.lower() == low]
+            e = fresh[0] if fresh else hit[0]          # the root database is held under the name as typed
             if e in held:
                 new = [d for d in st["dropped"] if d not in prev["dropped"] and ".backup." in d]
                 if len(new) != 1:
                     return False
                 held[new[0]] = held.pop(e)
                 pile = [(new[0], f) if n == e else (n, f) for n, f in pile]
-            held[e] = plive[e]
-            pile.insert(0, (e, plive[e]))
+            held[e] = plive[hit[0]]
+            pile.insert(0, (e, plive[hit[0]]))
         elif k in ("undrop", "undropx"):
             want = st.get("arg", "") if k == "undropx" else op["n"]
             cands = sorted(n for n in held if n.lower() == want.lower())
